@@ -47,6 +47,156 @@ def gadd(base, g):
     return add(base, g)
 
 
+def location_rules(rep, T, rule="R3", which=("parse_location_entries", "decode_position_entry", "decode_linetable_entry")):
+    """R3 of C17 (also used by C05 as its R4 for the line decoder)"""
+    F = T.F
+    c311 = F.modules.get("xdis.codetype.code311")
+    if c311 is None:
+        raise AnalysisError("anchor vanished: xdis.codetype.code311")
+    # ---------------------------------------------------------------- R3 location decoders
+    FL = Sym("first_line", "int")
+    ple = c311.ns.get("parse_location_entries")
+    dpe = c311.ns.get("decode_position_entry")
+    dle = c311.ns.get("decode_linetable_entry")
+    for nm, fobj in (("parse_location_entries", ple), ("decode_position_entry", dpe), ("decode_linetable_entry", dle)):
+        if not isinstance(fobj, FuncRef):
+            raise AnalysisError("anchor vanished: xdis.codetype.code311.%s" % nm)
+        rep.analysed(fobj.qualname)
+    nconf = 0
+    agg = {}
+
+    def ob3(fq, cfg, field, ok, expected=None, derived=None, msg=None):
+        code_ = cfg.split(":")[0]
+        k = (fq, code_, field)
+        a = agg.setdefault(k, {"ok": True, "n": 0, "bad": []})
+        a["n"] += 1
+        if not ok:
+            a["ok"] = False
+            a["bad"].append((cfg, expected, derived, msg))
+
+    def configs():
+        for code in range(16):
+            for ln in (1, 5, 8):
+                first = 0x80 | (code << 3) | (ln - 1)
+                if code <= 9:
+                    yield code, ln, first, [("raw", 1)]
+                elif code <= 12:
+                    yield code, ln, first, [("raw", 1), ("raw", 1)]
+                elif code == 13:
+                    for k in (1, 2, 3):
+                        yield code, ln, first, [("var", k)]
+                elif code == 14:
+                    if ln != 1:
+                        continue
+                    for ks in itertools.product((1, 2), repeat=4):
+                        yield code, ln, first, [("var", k) for k in ks]
+                    yield code, ln, first, [("var", 3), ("var", 1), ("var", 1), ("var", 3)]
+                else:
+                    yield code, ln, first, []
+
+    for code, ln, first, shape in configs():
+        nconf += 1
+        payload, groups = [], []
+        n = 0
+        for kind, k in shape:
+            if kind == "raw":
+                n += 1
+                r = raw("p%d" % n)
+                payload.append(r)
+                groups.append(r)
+            else:
+                xs = []
+                for j in range(k):
+                    n += 1
+                    b, x = pay("x%d" % n, j < k - 1)
+                    payload.append(b)
+                    xs.append(x)
+                groups.append(xs)
+        cfg = "code=%d:len=%d:%s" % (code, ln, "".join("r" if kd == "raw" else str(k) for kd, k in shape) or "-")
+        # expected per Objects/locations.md
+        if code <= 9:
+            col = add(8 * code, bits(groups[0], 4, 3))
+            want = (ln, FL, FL, col, add(col, bits(groups[0], 0, 4)))
+            dline = 0
+        elif code <= 12:
+            dline = code - 10
+            want = (ln, add(FL, dline), add(FL, dline), groups[0], groups[1])
+        elif code == 13:
+            dline = svarint(groups[0])
+            sl = gadd(FL, dline)
+            want = (ln, sl, sl, None, None)
+        elif code == 14:
+            dline = svarint(groups[0])
+            sl = gadd(FL, dline)
+            el = gadd(uvarint(groups[1]), sl) if not isinstance(sl, Guard) else Guard(sl.cond, add(sl.a, uvarint(groups[1])), add(sl.b, uvarint(groups[1])))
+            want = (ln, sl, el, add(uvarint(groups[2]), -1), add(uvarint(groups[3]), -1))
+        else:
+            dline = 0
+            want = (ln, None, None, None, None)
+        # ---- parse_location_entries (what Code311.co_positions() returns)
+        names = ("length", "start_line", "end_line", "start_column", "end_column")
+        ent = "skip"
+        if "parse_location_entries" in which:
+            sp = Spec(F)
+            sp.eager_generators = True
+            out = sp.run(ple, [[first] + payload, FL])
+            rets = [l.value for g, l in leaves(out) if isinstance(l, Ret)]
+            ent = rets[0][0] if len(rets) == 1 and isinstance(rets[0], list) and len(rets[0]) == 1 else None
+        if ent == "skip":
+            pass
+        elif ent is None or not isinstance(ent, tuple) or len(ent) != 5:
+            ob3(ple.qualname, cfg, "entry", False, expected="one 5-tuple", derived=show(rets)[:200])
+        else:
+            for i, nm in enumerate(names):
+                ok = repr(ent[i]) == repr(want[i])
+                if not ok and isinstance(want[i], Guard) and isinstance(ent[i], Guard):
+                    ok = repr(ent[i].cond) == repr(want[i].cond) and repr(ent[i].a) == repr(want[i].a) and repr(ent[i].b) == repr(want[i].b)
+                ob3(ple.qualname, cfg, nm, ok, expected=show(want[i]), derived=show(ent[i]),
+                    msg="co_positions(): %s of a code-%d location entry differs from CPython (%s)" % (nm, code, "long form stores column + 1" if code == 14 and "column" in nm else "locations.md"))
+        # ---- decode_position_entry / decode_linetable_entry: same bytes through an iterator
+        for fobj, label in ((dpe, "position"), (dle, "line")):
+            if fobj.name not in which:
+                continue
+            sp = Spec(F)
+            sp.eager_generators = True
+            itr = iter(list(payload))
+            res = sp.call(fobj, [first, itr], {}, None, {})
+            if not (isinstance(res, Op) and res.op == "new"):
+                ob3(fobj.qualname, cfg, "result", False, expected="an entry record", derived=show(res)[:200])
+                continue
+            kw = dict(res.args[1])
+            ob3(fobj.qualname, cfg, "code_delta", kw.get("code_delta") == 2 * ln, expected=2 * ln, derived=show(kw.get("code_delta")))
+            ob3(fobj.qualname, cfg, "no_line_flag", kw.get("no_line_flag") is (code == 15), expected=(code == 15), derived=show(kw.get("no_line_flag")))
+            got = kw.get("line_delta")
+            ok = repr(got) == repr(dline)
+            if not ok and isinstance(dline, Guard) and isinstance(got, Guard):
+                ok = repr(got.cond) == repr(dline.cond) and repr(got.a) == repr(dline.a) and repr(got.b) == repr(dline.b)
+            ob3(fobj.qualname, cfg, "line_delta", ok, expected=show(dline), derived=show(got),
+                msg="line delta of a code-%d entry differs from locations.md" % code)
+            if label == "position" and code != 15:
+                if code <= 9:
+                    wcol, wend = want[3], want[4]
+                elif code <= 12:
+                    wcol, wend = groups[0], groups[1]
+                elif code == 13:
+                    wcol, wend = -1, -1
+                else:
+                    wcol, wend = want[3], want[4]
+                ob3(fobj.qualname, cfg, "column", repr(kw.get("column")) == repr(wcol), expected=show(wcol), derived=show(kw.get("column")))
+                ob3(fobj.qualname, cfg, "endcolumn", repr(kw.get("endcolumn")) == repr(wend), expected=show(wend), derived=show(kw.get("endcolumn")))
+                if code == 14:
+                    ob3(fobj.qualname, cfg, "num_lines", repr(kw.get("num_lines")) == repr(uvarint(groups[1])), expected=show(uvarint(groups[1])), derived=show(kw.get("num_lines")))
+    for (fq, code_, field), a in sorted(agg.items()):
+        if a["ok"]:
+            rep.ob(rule, fq, "%s:%s" % (code_, field), True, expected="per locations.md", derived="equal in %d configurations" % a["n"])
+        else:
+            cfg, exp, got, msg = a["bad"][0]
+            rep.ob(rule, fq, "%s:%s" % (code_, field), False, expected=exp, derived={"first failing configuration": cfg, "derived": got, "failing": len(a["bad"]), "of": a["n"]}, msg=msg)
+    rep.configurations = nconf
+    rep.floor("location-entry configurations", nconf, 60)
+    return nconf
+
+
 def run(rep, tier):
     rep.explanation = ("specialisation of the 3.11+ table decoders with the entry's first byte and the varint byte-lengths as the enumerated configuration and all "
                        "payload bits symbolic (bit-field normal forms); the resulting straight-line terms are compared with terms built from Objects/locations.md "
@@ -139,141 +289,7 @@ def run(rep, tier):
     sp.run(fet, [bco, (3, 12)])
     txt = " ".join(show(e.args[2]) for k, e in flatten_effects(sp.effects) if k == "mutate")
     rep.ob("R4", fet.qualname, "prints-end-minus-2", "'end') + -2" in txt or "-2 + attr(" in txt, expected="entry.end - 2", derived=txt[:200])
-    # ---------------------------------------------------------------- R3 location decoders
-    FL = Sym("first_line", "int")
-    ple = c311.ns.get("parse_location_entries")
-    dpe = c311.ns.get("decode_position_entry")
-    dle = c311.ns.get("decode_linetable_entry")
-    for nm, fobj in (("parse_location_entries", ple), ("decode_position_entry", dpe), ("decode_linetable_entry", dle)):
-        if not isinstance(fobj, FuncRef):
-            raise AnalysisError("anchor vanished: xdis.codetype.code311.%s" % nm)
-        rep.analysed(fobj.qualname)
-    nconf = 0
-    agg = {}
-
-    def ob3(fq, cfg, field, ok, expected=None, derived=None, msg=None):
-        code_ = cfg.split(":")[0]
-        k = (fq, code_, field)
-        a = agg.setdefault(k, {"ok": True, "n": 0, "bad": []})
-        a["n"] += 1
-        if not ok:
-            a["ok"] = False
-            a["bad"].append((cfg, expected, derived, msg))
-
-    def configs():
-        for code in range(16):
-            for ln in (1, 5, 8):
-                first = 0x80 | (code << 3) | (ln - 1)
-                if code <= 9:
-                    yield code, ln, first, [("raw", 1)]
-                elif code <= 12:
-                    yield code, ln, first, [("raw", 1), ("raw", 1)]
-                elif code == 13:
-                    for k in (1, 2, 3):
-                        yield code, ln, first, [("var", k)]
-                elif code == 14:
-                    if ln != 1:
-                        continue
-                    for ks in itertools.product((1, 2), repeat=4):
-                        yield code, ln, first, [("var", k) for k in ks]
-                    yield code, ln, first, [("var", 3), ("var", 1), ("var", 1), ("var", 3)]
-                else:
-                    yield code, ln, first, []
-
-    for code, ln, first, shape in configs():
-        nconf += 1
-        payload, groups = [], []
-        n = 0
-        for kind, k in shape:
-            if kind == "raw":
-                n += 1
-                r = raw("p%d" % n)
-                payload.append(r)
-                groups.append(r)
-            else:
-                xs = []
-                for j in range(k):
-                    n += 1
-                    b, x = pay("x%d" % n, j < k - 1)
-                    payload.append(b)
-                    xs.append(x)
-                groups.append(xs)
-        cfg = "code=%d:len=%d:%s" % (code, ln, "".join("r" if kd == "raw" else str(k) for kd, k in shape) or "-")
-        # expected per Objects/locations.md
-        if code <= 9:
-            col = add(8 * code, bits(groups[0], 4, 3))
-            want = (ln, FL, FL, col, add(col, bits(groups[0], 0, 4)))
-            dline = 0
-        elif code <= 12:
-            dline = code - 10
-            want = (ln, add(FL, dline), add(FL, dline), groups[0], groups[1])
-        elif code == 13:
-            dline = svarint(groups[0])
-            sl = gadd(FL, dline)
-            want = (ln, sl, sl, None, None)
-        elif code == 14:
-            dline = svarint(groups[0])
-            sl = gadd(FL, dline)
-            el = gadd(uvarint(groups[1]), sl) if not isinstance(sl, Guard) else Guard(sl.cond, add(sl.a, uvarint(groups[1])), add(sl.b, uvarint(groups[1])))
-            want = (ln, sl, el, add(uvarint(groups[2]), -1), add(uvarint(groups[3]), -1))
-        else:
-            dline = 0
-            want = (ln, None, None, None, None)
-        # ---- parse_location_entries (what Code311.co_positions() returns)
-        sp = Spec(F)
-        sp.eager_generators = True
-        out = sp.run(ple, [[first] + payload, FL])
-        rets = [l.value for g, l in leaves(out) if isinstance(l, Ret)]
-        ent = rets[0][0] if len(rets) == 1 and isinstance(rets[0], list) and len(rets[0]) == 1 else None
-        names = ("length", "start_line", "end_line", "start_column", "end_column")
-        if ent is None or not isinstance(ent, tuple) or len(ent) != 5:
-            ob3(ple.qualname, cfg, "entry", False, expected="one 5-tuple", derived=show(rets)[:200])
-        else:
-            for i, nm in enumerate(names):
-                ok = repr(ent[i]) == repr(want[i])
-                if not ok and isinstance(want[i], Guard) and isinstance(ent[i], Guard):
-                    ok = repr(ent[i].cond) == repr(want[i].cond) and repr(ent[i].a) == repr(want[i].a) and repr(ent[i].b) == repr(want[i].b)
-                ob3(ple.qualname, cfg, nm, ok, expected=show(want[i]), derived=show(ent[i]),
-                    msg="co_positions(): %s of a code-%d location entry differs from CPython (%s)" % (nm, code, "long form stores column + 1" if code == 14 and "column" in nm else "locations.md"))
-        # ---- decode_position_entry / decode_linetable_entry: same bytes through an iterator
-        for fobj, label in ((dpe, "position"), (dle, "line")):
-            sp = Spec(F)
-            sp.eager_generators = True
-            itr = iter(list(payload))
-            res = sp.call(fobj, [first, itr], {}, None, {})
-            if not (isinstance(res, Op) and res.op == "new"):
-                ob3(fobj.qualname, cfg, "result", False, expected="an entry record", derived=show(res)[:200])
-                continue
-            kw = dict(res.args[1])
-            ob3(fobj.qualname, cfg, "code_delta", kw.get("code_delta") == 2 * ln, expected=2 * ln, derived=show(kw.get("code_delta")))
-            ob3(fobj.qualname, cfg, "no_line_flag", kw.get("no_line_flag") is (code == 15), expected=(code == 15), derived=show(kw.get("no_line_flag")))
-            got = kw.get("line_delta")
-            ok = repr(got) == repr(dline)
-            if not ok and isinstance(dline, Guard) and isinstance(got, Guard):
-                ok = repr(got.cond) == repr(dline.cond) and repr(got.a) == repr(dline.a) and repr(got.b) == repr(dline.b)
-            ob3(fobj.qualname, cfg, "line_delta", ok, expected=show(dline), derived=show(got),
-                msg="line delta of a code-%d entry differs from locations.md" % code)
-            if label == "position" and code != 15:
-                if code <= 9:
-                    wcol, wend = want[3], want[4]
-                elif code <= 12:
-                    wcol, wend = groups[0], groups[1]
-                elif code == 13:
-                    wcol, wend = -1, -1
-                else:
-                    wcol, wend = want[3], want[4]
-                ob3(fobj.qualname, cfg, "column", repr(kw.get("column")) == repr(wcol), expected=show(wcol), derived=show(kw.get("column")))
-                ob3(fobj.qualname, cfg, "endcolumn", repr(kw.get("endcolumn")) == repr(wend), expected=show(wend), derived=show(kw.get("endcolumn")))
-                if code == 14:
-                    ob3(fobj.qualname, cfg, "num_lines", repr(kw.get("num_lines")) == repr(uvarint(groups[1])), expected=show(uvarint(groups[1])), derived=show(kw.get("num_lines")))
-    for (fq, code_, field), a in sorted(agg.items()):
-        if a["ok"]:
-            rep.ob("R3", fq, "%s:%s" % (code_, field), True, expected="per locations.md", derived="equal in %d configurations" % a["n"])
-        else:
-            cfg, exp, got, msg = a["bad"][0]
-            rep.ob("R3", fq, "%s:%s" % (code_, field), False, expected=exp, derived={"first failing configuration": cfg, "derived": got, "failing": len(a["bad"]), "of": a["n"]}, msg=msg)
-    rep.configurations = nconf
-    rep.floor("location-entry configurations", nconf, 60)
+    nconf = location_rules(rep, T)
     # wiring: which decoder the public methods use
     C = c311.ns.get("Code311")
     for meth, target in (("co_positions", "parse_location_entries"), ("co_lines", "parse_linetable")):
